@@ -302,12 +302,17 @@ func buildVS(r *vh.Rng, p map[string]int) *configs.VirtualServerEx {
 		un := name(r, "u", i)
 		svc := un + "-svc"
 		upNames = append(upNames, un)
-		vs.Spec.Upstreams = append(vs.Spec.Upstreams, conf_v1.Upstream{Name: un, Service: svc, Port: 80, LBMethod: []string{"", "least_conn", "ip_hash"}[r.Intn(3)]})
+		up := conf_v1.Upstream{Name: un, Service: svc, Port: 80, LBMethod: []string{"", "least_conn", "ip_hash"}[r.Intn(3)]}
+		if p["sub"] > 0 && i%2 == 0 {
+			up.Subselector = subselector(r, p["sub"])
+		}
+		vs.Spec.Upstreams = append(vs.Spec.Upstreams, up)
 		var eps []string
 		for e := 0; e < p["eps"]+1; e++ {
 			eps = append(eps, fmt.Sprintf("10.%d.%d.%d:80", i, r.Intn(200), e+1))
 		}
-		ex.Endpoints[fmt.Sprintf("%s/%s:80", ns, svc)] = eps
+		// the key of the endpoint set, computed as the controller computes it (createVirtualServerEx)
+		ex.Endpoints[configs.GenerateEndpointsKey(ns, svc, up.Subselector, 80)] = eps
 	}
 	// routes: one per upstream
 	for i, un := range upNames {
@@ -379,7 +384,10 @@ func buildVS(r *vh.Rng, p map[string]int) *configs.VirtualServerEx {
 				Upstreams: []conf_v1.Upstream{{Name: "subup", Service: "sub-svc", Port: 80}},
 			},
 		}
-		ex.Endpoints[ns+"/sub-svc:80"] = []string{"10.9.0.1:80", "10.9.0.2:80"}
+		if p["sub"] > 0 {
+			vsr.Spec.Upstreams[0].Subselector = subselector(r, p["sub"])
+		}
+		ex.Endpoints[configs.GenerateEndpointsKey(ns, "sub-svc", vsr.Spec.Upstreams[0].Subselector, 80)] = []string{"10.9.0.1:80", "10.9.0.2:80"}
 		for s := 0; s < p["vsr"]; s++ {
 			sr := conf_v1.Route{Path: fmt.Sprintf("/sub/r%d", s), Action: &conf_v1.Action{Pass: "subup"}}
 			pn := fmt.Sprintf("api-key-policy-sub-%d", s)
@@ -567,6 +575,12 @@ func buildResources(c *Case, round int) (configs.ExtendedResources, int) {
 		upd(c.P["keys"])
 		upd(c.P["akp"] + c.P["vsr"])
 		upd(c.P["claims"])
+		upd(c.P["sub"])
+		upd(len(ex.Endpoints))
+	case "vsctl":
+		ex := buildVSCtl(c)
+		res.VirtualServerExes = []*configs.VirtualServerEx{ex}
+		upd(c.P["sub"])
 		upd(len(ex.Endpoints))
 	case "ingress":
 		ex := buildIngress(r, c.P, "cafe-ingress", "cafe.example.com", c.P["ann"], "")
@@ -1099,6 +1113,19 @@ func runUnit(c *Case) (obs UnitObs) {
 			}
 			return configs.VerifC09APIKeyClients(fresh)
 		}
+	case "GenerateEndpointsKey":
+		sub := subselector(r, n)
+		for _, k := range sortedKeys(sub) {
+			obs.Bindings = append(obs.Bindings, [2]string{k, sub[k]})
+		}
+		call = func() []string {
+			fresh := make(map[string]string, len(sub))
+			for _, kv := range obs.Bindings {
+				fresh[kv[0]] = kv[1]
+			}
+			return []string{configs.GenerateEndpointsKey("default", "tea-svc", fresh, 80)}
+		}
+		obs.Expect = call()
 	case "upstreamMapToSlice":
 		var names []string
 		for i := 0; i < n; i++ {
@@ -1262,7 +1289,14 @@ func genCases(a vh.Args) []Case {
 	add("render", "mergeable", true, map[string]int{"svcs": 3, "eps": 1, "ann": 10, "minions": 3, "deny": 1, "hc": 1}, rounds) //
 	add("render", "ts", false, map[string]int{"n": 1, "ups": 5, "eps": 3}, rounds)                                             // TS with several upstreams
 	add("render", "ts", true, map[string]int{"n": 5, "ups": 2, "eps": 1, "pt": 1}, rounds)                                     // TLS passthrough host map with 5 entries
-	for k := 1; k <= 6; k++ {                                                                                                  // API-key Secrets whose client ids collide under case folding / trimming / separator folding
+	// upstreams selected by 2-4 subselector labels: endpoint sets keyed by GenerateEndpointsKey, as the controller does,
+	// and the whole way through the controller's createVirtualServerEx
+	add("render", "vs", false, map[string]int{"ups": 4, "eps": 2, "sub": 2, "vsr": 1, "akp": 1, "keys": 2}, rounds)
+	add("render", "vs", true, map[string]int{"ups": 3, "eps": 1, "sub": 4}, rounds)
+	add("render", "vsctl", false, map[string]int{"ups": 3, "eps": 1, "sub": 3, "vsr": 1}, rounds)
+	add("render", "vsctl", true, map[string]int{"ups": 4, "eps": 2, "sub": 2, "hdr": 1}, rounds)
+	add("render", "vsctl", false, map[string]int{"ups": 2, "eps": 0, "sub": 4, "mix": 1}, rounds)
+	for k := 1; k <= 6; k++ { // API-key Secrets whose client ids collide under case folding / trimming / separator folding
 		add("render", "vs", k%2 == 0, map[string]int{"ups": 2, "akp": 1 + k%3, "near": k}, rounds)
 	}
 	// generated variations
@@ -1272,7 +1306,12 @@ func genCases(a vh.Args) []Case {
 		switch r.Intn(8) {
 		case 0, 1, 2, 3:
 			p := map[string]int{"ups": 2 + r.Intn(4), "eps": r.Intn(3), "keys": 1 + r.Intn(9), "akp": r.Intn(5),
-				"claims": r.Intn(4), "tiers": 2 + r.Intn(2), "rlroute": r.Intn(2), "vsr": r.Intn(3), "hdr": r.Intn(4), "mix": r.Intn(2)}
+				"claims": r.Intn(4), "tiers": 2 + r.Intn(2), "rlroute": r.Intn(2), "vsr": r.Intn(3), "hdr": r.Intn(4), "mix": r.Intn(2),
+				"sub": r.Intn(5)}
+			if r.Chance(1, 5) {
+				add("render", "vsctl", r.Bool(), map[string]int{"ups": 2 + r.Intn(3), "eps": r.Intn(3), "sub": 2 + r.Intn(3), "vsr": r.Intn(2), "hdr": r.Intn(3), "mix": r.Intn(2)}, rounds)
+				continue
+			}
 			if p["vsr"] > 0 && p["akp"] == 0 {
 				p["akp"] = 1
 			}
@@ -1299,6 +1338,9 @@ func genCases(a vh.Args) []Case {
 		add("unit", "generateAPIKeyClients", false, map[string]int{"n": len(nearKeySets[k-1]), "near": k}, urounds)
 		add("unit", "upstreamMapToSlice", false, map[string]int{"n": len(nearKeySets[k-1]), "near": k}, urounds)
 	}
+	for _, n := range []int{2, 3, 4, 6} {
+		add("unit", "GenerateEndpointsKey", false, map[string]int{"n": n}, urounds)
+	}
 	for _, n := range []int{2, 4, 5} {
 		add("unit", "GenerateVirtualServerConfig", true, map[string]int{"n": n}, urounds)
 	}
@@ -1310,6 +1352,12 @@ func genCases(a vh.Args) []Case {
 		for _, plus := range []bool{false, true} {
 			add("history", historyScenarios[sc].kind, plus, map[string]int{"scenario": sc, "svcs": 3, "eps": 1, "ann": 8, "minions": 3, "deny": 1,
 				"ups": 3, "keys": 3, "akp": 2, "claims": 2, "tiers": 2, "n": 2, "hdr": 1}, 1)
+		}
+	}
+	// settings histories: every custom-template key x every sequence, alternating template sets
+	for key := range templateKeys {
+		for sq := range configSequences {
+			add("history", "config", (key+sq)%2 == 0, map[string]int{"key": key, "seq": sq, "plain": (key + sq) % 4}, 1)
 		}
 	}
 	for i := 0; i < a.N/4; i++ {
@@ -1362,7 +1410,11 @@ func main() {
 		case "unit":
 			c.Obs = runUnit(c)
 		case "history":
-			c.Obs = runHistory(c)
+			if c.Kind == "config" {
+				c.Obs = runConfigHistory(c)
+			} else {
+				c.Obs = runHistory(c)
+			}
 		default:
 			c.Obs = map[string]string{"error": "unknown family " + c.Fam}
 		}
